@@ -27,7 +27,7 @@ def main():
             if rc != 0:
                 results[s] = ("PATCH-FAILS", [], "")
                 continue
-            rc, out = sh("/verif/bin/sidcheck -property all -tier quick", cwd="/verif")
+            rc, out = sh("rm -rf /tmp/seedrun_out && mkdir -p /tmp/seedrun_out && /verif/bin/sidcheck -property all -tier quick -outdir /tmp/seedrun_out; rc=$?; rm -rf /tmp/seedrun_out; exit $rc", cwd="/verif")
             fired = re.findall(r"VIOLATION property=(\S+)", out)
             infra = "infrastructure failure" in out
             results[s] = ("exit=%d%s" % (rc, " INFRA" if infra else ""), fired, out)
